@@ -214,6 +214,7 @@ func runBlock(r *simk.Run, f focus) *simk.Violation {
 		// directed shape in a few read-mostly runs: a transaction whose every key was already requested by
 		// earlier, non-conflicting transactions (forceSponsor/forceGet steer the next generated transaction)
 		forceSponsor, forceGet := -1, []byte(nil)
+		forcePut := false // the forced operation is a write of forceGet instead of a read
 		mkTx := func() (*chain.Transaction, genTx, error) {
 			g := genTx{Sponsor: c.Intn(nSponsors)}
 			if forceSponsor >= 0 {
@@ -249,8 +250,13 @@ func runBlock(r *simk.Run, f focus) *simk.Violation {
 				}
 				if forceGet != nil {
 					nOps = 0
-					sa.Ops = append(sa.Ops, SimOp{Kind: "get", Key: forceGet})
-					need[string(forceGet)] |= state.Read
+					if forcePut {
+						sa.Ops = append(sa.Ops, SimOp{Kind: "put", Key: forceGet, Val: genValue(c, int(nonce))})
+						need[string(forceGet)] |= state.Write | state.Allocate
+					} else {
+						sa.Ops = append(sa.Ops, SimOp{Kind: "get", Key: forceGet})
+						need[string(forceGet)] |= state.Read
+					}
 				}
 				for o := 0; o < nOps; o++ {
 					k := keysU[c.Intn(nKeys)]
@@ -429,15 +435,33 @@ func runBlock(r *simk.Run, f focus) *simk.Violation {
 			return tx, g, nil
 		}
 		shape := readMostly && nKeys >= 2 && c.Bool(0.5)
+		// second shape: a first toucher, two readers and then a writer of one key, all of different
+		// sponsors, so that only the key orders them (readers of a finished first toucher vs a later writer)
+		shape2 := readMostly && !shape && nSponsors == 3 && c.Bool(0.6)
+		if shape2 {
+			shape = false
+			s.StarveFn = nil // here the first toucher has to finish early, while later transactions are still being enqueued
+			if nTx < 4 {
+				nTx = 4
+			}
+		}
 		if shape && nTx < 3 {
 			nTx = 3
+		}
+		shape2At := 0
+		if shape2 {
+			shape2At = c.Intn(nTx - 3)
 		}
 		shapeAt := 0
 		if shape {
 			shapeAt = c.Intn(nTx - 2)
 		}
 		for i := 0; i < nTx; i++ {
-			forceSponsor, forceGet = -1, nil
+			forceSponsor, forceGet, forcePut = -1, nil, false
+			if shape2 && i >= shape2At && i < shape2At+4 {
+				k := i - shape2At
+				forceSponsor, forceGet, forcePut = []int{0, 1, 2, 0}[k], keysU[slowIdx], k == 3
+			}
 			if shape && i >= shapeAt && i < shapeAt+3 {
 				// sponsor 1 reads another key, sponsor 0 reads the slow key, sponsor 1 reads the slow key
 				switch i - shapeAt {
